@@ -390,11 +390,15 @@ Proof. destruct r; reflexivity. Qed.
     comma is required after a top-level type and after `owned(..)` / `ref(..)` / `ref_mut(..)`): at the
     head of every iteration `out.owned.tys` is empty or ends with a comma, so `push_value` (:396) and
     both `push_punct` (:363, :399) satisfy syn's assertions -- for every sequence of items *)
+Lemma pi_guard_present : pi_guard = true.
+Proof. vm_compute. reflexivity. Qed.
+
 Lemma into_loop_safe items : forall st,
   empty_or_trailing st = true -> all_ok (ops_of (into_loop st items)) = true.
 Proof.
   induction items as [|[inner comma| |comma] items IH]; intros st Hst; cbn [into_loop]; [reflexivity| |apply IH; exact Hst|].
   - cbv zeta. generalize (match inner with None => st | Some (k, tr) => extend_pairs st k tr end). intros st1.
+    rewrite pi_guard_present. cbn [andb].
     destruct comma.
     + destruct (empty_or_trailing st1) eqn:E; [apply IH; exact E|].
       rewrite ops_of_prepend, all_ok_app. cbn [all_ok forallb op_ok negb andb]. apply IH.
@@ -464,3 +468,301 @@ Proof. vm_compute. reflexivity. Qed.
 
 Example ex_try_into : try_into_member [true; false; true] 2 = [OIndex 0 2; OIndex 1 2].
 Proof. vm_compute. reflexivity. Qed.
+
+(* ========================================================================================== *)
+(** * Part C: extracted arithmetic, the attribute meta parser, legacy detectors, recursion depth *)
+
+Local Open Scope nat_scope.
+Local Open Scope list_scope.
+
+(** the expressions the translator extracted are the ones the hand models of Part A use *)
+Lemma isf_exp_is : isf_exp = ABin ARem (ABin APlus (AVar "backtrace") (AConst 1)) (AConst 2).
+Proof. vm_compute. reflexivity. Qed.
+Lemma isf_guard_present : isf_guard = true.
+Proof. vm_compute. reflexivity. Qed.
+Lemma pfs_star_is : pfs_star = AAssign APlus "n" (AConst 1).
+Proof. vm_compute. reflexivity. Qed.
+Lemma pfs_next_is : pfs_next = AAssign APlus "n" (AConst 1).
+Proof. vm_compute. reflexivity. Qed.
+Lemma pfs_pos_is : pfs_pos = ABin AMinus (AVar "n") (AConst 1).
+Proof. vm_compute. reflexivity. Qed.
+Lemma bp_dec_is : bp_dec = AAssign AMinus "count" (AConst 1).
+Proof. vm_compute. reflexivity. Qed.
+Lemma bp_inc_is : bp_inc = AAssign APlus "count" (AConst 1).
+Proof. vm_compute. reflexivity. Qed.
+Lemma bp_guard_present : bp_guard = true.
+Proof. vm_compute. reflexivity. Qed.
+Lemma tf_inc_is : tf_inc = AAssign APlus "inc" (AConst 1).
+Proof. vm_compute. reflexivity. Qed.
+Lemma ff_inc_is : ff_inc = AAssign APlus "i" (AConst 1).
+Proof. vm_compute. reflexivity. Qed.
+
+Lemma env_get_hd x v e : env_get x ((x, v) :: e) = v.
+Proof. cbn. rewrite String.eqb_refl. reflexivity. Qed.
+Lemma env_has_hd x v e : env_has x ((x, v) :: e) = true.
+Proof. cbn. rewrite String.eqb_refl. reflexivity. Qed.
+
+Lemma exec_inc lim x v e :
+  aexec lim ((x, v) :: e) (AAssign APlus x (AConst 1)) = ((x, v + 1) :: (x, v) :: e, [add_ok v 1 lim]).
+Proof. unfold aexec. cbn [aeval aops]. rewrite env_get_hd, env_has_hd. reflexivity. Qed.
+
+Lemma exec_dec lim x v e :
+  aexec lim ((x, v) :: e) (AAssign AMinus x (AConst 1)) = ((x, v - 1) :: (x, v) :: e, [OSub v 1]).
+Proof. unfold aexec. cbn [aeval aops]. rewrite env_get_hd, env_has_hd. reflexivity. Qed.
+
+Lemma add_ok_ok a b lim : a + b <= lim -> op_ok (add_ok a b lim) = true.
+Proof. intros H. unfold add_ok. cbn. apply Nat.leb_le. exact H. Qed.
+
+(** error.rs:403 `(backtrace + 1) % 2` under the guard `fields.len() != 2 => return None`, with backtrace a
+    position among the fields: no overflow, no division by zero, the result is a position among the fields, and
+    it is the value the model of Part A uses *)
+Lemma infer_source_arith_safe nfields b :
+  b < nfields ->
+  match infer_source_arith nfields b with
+  | None => nfields <> 2
+  | Some (s, ops) => nfields = 2 /\ all_ok ops = true /\ s < nfields /\ s = (b + 1) mod 2
+  end.
+Proof.
+  intros Hb. unfold infer_source_arith. rewrite isf_guard_present, isf_exp_is. cbn [andb].
+  destruct (nfields =? 2) eqn:E; cbn [negb].
+  - apply Nat.eqb_eq in E. subst nfields. cbn [aeval aops]. rewrite !env_get_hd, !env_has_hd.
+    split; [reflexivity|]. split.
+    + cbn [app all_ok forallb]. rewrite add_ok_ok by lia. reflexivity.
+    + split; [apply Nat.mod_upper_bound; discriminate | reflexivity].
+  - apply Nat.eqb_neq in E. exact E.
+Qed.
+
+(** fmt/mod.rs:496-502: the counter of Placeholder::parse_fmt_string never exceeds twice the number of
+    placeholders and `n - 1` never underflows *)
+Lemma parse_fmt_counter_safe fs : forall n lim,
+  n + 2 * length fs <= lim -> all_ok (parse_fmt_counter lim n fs) = true.
+Proof.
+  induction fs as [|[star has_arg] fs IH]; intros n lim H; [reflexivity|].
+  cbn [parse_fmt_counter length] in *. rewrite pfs_star_is, pfs_next_is, pfs_pos_is.
+  destruct star, has_arg; rewrite ?exec_inc; cbn [fst snd app aops aeval];
+    rewrite ?exec_inc; cbn [fst snd app aops aeval]; rewrite ?env_get_hd, ?env_has_hd;
+    cbn [app all_ok forallb]; rewrite ?add_ok_ok by lia; cbn [andb op_ok].
+  - apply IH. lia.
+  - assert (Hs : (1 <=? n + 1 + 1) = true) by (apply Nat.leb_le; lia). rewrite Hs. apply IH. lia.
+  - apply IH. lia.
+  - assert (Hs : (1 <=? n + 1) = true) by (apply Nat.leb_le; lia). rewrite Hs. apply IH. lia.
+Qed.
+
+(** parsing.rs:144-163 balanced_pair: under `while count != 0` the decrement never underflows and the counter is
+    bounded by its start value plus the number of token trees consumed *)
+Lemma balanced_pair_x_safe steps : forall count lim,
+  count + length steps <= lim -> all_ok (balanced_pair_x lim count steps) = true.
+Proof.
+  induction steps as [|s steps IH]; intros count lim H; [reflexivity|].
+  cbn [balanced_pair_x length] in *. rewrite bp_guard_present, bp_dec_is, bp_inc_is. cbn [andb].
+  destruct (count =? 0) eqn:E; [reflexivity|]. apply Nat.eqb_neq in E.
+  destruct s; rewrite ?exec_dec, ?exec_inc; cbn [fst snd]; rewrite ?env_get_hd; rewrite ?all_ok_app.
+  - cbn [all_ok forallb op_ok]. assert (Hs : (1 <=? count) = true) by (apply Nat.leb_le; lia). rewrite Hs.
+    cbn [andb]. apply IH. lia.
+  - cbn [all_ok forallb]. rewrite add_ok_ok by lia. cbn [andb]. apply IH. lia.
+  - apply IH. lia.
+  - apply IH. lia.
+Qed.
+
+Lemma try_from_counter_safe vs : forall inc lim,
+  inc + length vs <= lim -> all_ok (try_from_counter lim inc vs) = true.
+Proof.
+  induction vs as [|d vs IH]; intros inc lim H; [reflexivity|].
+  cbn [try_from_counter length] in *. rewrite tf_inc_is, exec_inc. cbn [fst snd]. rewrite env_get_hd, all_ok_app.
+  cbn [all_ok forallb]. rewrite add_ok_ok by (destruct d; lia). cbn [andb]. apply IH. destruct d; lia.
+Qed.
+
+Lemma from_forward_counter_safe n : forall i lim,
+  i + n <= lim -> all_ok (from_forward_counter lim i n) = true.
+Proof.
+  induction n as [|n IH]; intros i lim H; [reflexivity|].
+  cbn [from_forward_counter]. rewrite ff_inc_is, exec_inc. cbn [fst snd]. rewrite env_get_hd, all_ok_app.
+  cbn [all_ok forallb]. rewrite add_ok_ok by lia. cbn [andb]. apply IH. lia.
+Qed.
+
+(* ------------------------------------------------------------------------------------------ *)
+(** ** the attribute meta parser *)
+
+Lemma ppnm_run_eq allowed w' : forall l,
+  (fix go (l : list pmeta) : pres :=
+     match l with
+     | [] => (true, [], 0)
+     | x :: r =>
+         let rx := ppnm_meta allowed w' x in
+         if p_ok rx then let rr := go r in (p_ok rr, p_ops_of rx ++ p_ops_of rr, Nat.max (p_depth rx) (p_depth rr))
+         else (false, p_ops_of rx, p_depth rx)
+     end) l = ppnm_list allowed w' l.
+Proof. induction l as [|x r IH]; [reflexivity|]. cbn [ppnm_list]. rewrite <- IH. reflexivity. Qed.
+
+Lemma id_allowed_some allowed id : id_allowed allowed id = true -> exists name, id = Some name.
+Proof.
+  unfold id_allowed. intros H. apply existsb_exists in H as (s & _ & H). destruct id as [x|]; [eexists; reflexivity|].
+  discriminate.
+Qed.
+
+Lemma types_arm_ok w l :
+  match w with Some n => is_ref_name n = true | None => True end -> all_ok (snd (types_arm w l)) = true.
+Proof.
+  intros Hw. induction l as [|[|] l IH]; cbn [types_arm snd]; try reflexivity.
+  rewrite all_ok_app, IH, andb_true_r. destruct w as [n|]; [cbn [all_ok forallb op_ok]; rewrite Hw; reflexivity | reflexivity].
+Qed.
+
+(** with a wrapper (inside `not(..)`, `owned(..)`, ..) nothing recurses further and every operation is guarded *)
+Lemma ppnm_meta_wrapped allowed w m :
+  p_depth (ppnm_meta allowed (Some w) m) = 0 /\ all_ok (p_ops_of (ppnm_meta allowed (Some w) m)) = true.
+Proof.
+  destruct m as [id | id inner_ok inner tys]; cbn [ppnm_meta].
+  - destruct (id_allowed allowed id) eqn:Ea; cbn [negb]; [|split; reflexivity].
+    apply id_allowed_some in Ea as (name & ->). split; reflexivity.
+  - destruct (id_is id "not"); [split; reflexivity|].
+    destruct (id_allowed allowed id) eqn:Ea; cbn [negb]; [|split; reflexivity].
+    apply id_allowed_some in Ea as (name & ->). cbn [andb].
+    destruct (String.eqb name "types" && is_ref_name w) eqn:Et; [|split; reflexivity].
+    apply andb_true_iff in Et as [_ Hw].
+    destruct tys as [l|]; [|split; reflexivity].
+    unfold p_depth, p_ops_of. cbn [fst snd]. split; [reflexivity|].
+    rewrite all_ok_app. cbn [all_ok forallb op_ok andb]. apply (types_arm_ok (Some w) l). exact Hw.
+Qed.
+
+Lemma ppnm_list_wrapped allowed w ms :
+  p_depth (ppnm_list allowed (Some w) ms) = 0 /\ all_ok (p_ops_of (ppnm_list allowed (Some w) ms)) = true.
+Proof.
+  induction ms as [|m ms [IHd IHo]]; [split; reflexivity|].
+  cbn [ppnm_list]. destruct (ppnm_meta_wrapped allowed w m) as [Hd Ho].
+  destruct (p_ok (ppnm_meta allowed (Some w) m)).
+  - unfold p_depth, p_ops_of in *. cbn [fst snd]. rewrite Hd, IHd, all_ok_app, Ho, IHo. split; reflexivity.
+  - unfold p_depth, p_ops_of in *. cbn [fst snd]. split; assumption.
+Qed.
+
+Lemma ppnm_meta_top allowed m :
+  p_depth (ppnm_meta allowed None m) <= 1 /\ all_ok (p_ops_of (ppnm_meta allowed None m)) = true.
+Proof.
+  destruct m as [id | id inner_ok inner tys]; cbn [ppnm_meta].
+  - destruct (id_allowed allowed id) eqn:Ea; cbn [negb]; [|split; [apply Nat.le_0_l | reflexivity]].
+    apply id_allowed_some in Ea as (name & ->). split; [apply Nat.le_0_l | reflexivity].
+  - rewrite !ppnm_run_eq.
+    destruct (id_is id "not").
+    + destruct inner_ok; [|split; [apply Nat.le_0_l | reflexivity]].
+      destruct (ppnm_list_wrapped allowed "not" inner) as [Hd Ho].
+      unfold p_depth, p_ops_of in *. cbn [fst snd]. rewrite Hd. split; [apply le_n | exact Ho].
+    + destruct (id_allowed allowed id) eqn:Ea; cbn [negb]; [|split; [apply Nat.le_0_l | reflexivity]].
+      apply id_allowed_some in Ea as (name & ->). cbn [andb]. rewrite ?ppnm_run_eq.
+      destruct (is_ref_name name).
+      * destruct inner_ok; [|split; [apply Nat.le_0_l | reflexivity]].
+        destruct (ppnm_list_wrapped allowed name inner) as [Hd Ho].
+        unfold p_depth, p_ops_of in *. cbn [fst snd]. rewrite Hd. split; [apply le_n|].
+        rewrite all_ok_app, Ho. reflexivity.
+      * destruct (String.eqb name "types" && true); [|split; [apply Nat.le_0_l | reflexivity]].
+        destruct tys as [l|]; [|split; [apply Nat.le_0_l | reflexivity]].
+        unfold p_depth, p_ops_of. cbn [fst snd]. split; [apply Nat.le_0_l|].
+        rewrite all_ok_app. cbn [all_ok forallb op_ok andb]. apply (types_arm_ok None l). exact I.
+Qed.
+
+Lemma ppnm_list_top allowed ms :
+  p_depth (ppnm_list allowed None ms) <= 1 /\ all_ok (p_ops_of (ppnm_list allowed None ms)) = true.
+Proof.
+  induction ms as [|m ms [IHd IHo]]; [split; [apply Nat.le_0_l | reflexivity]|].
+  cbn [ppnm_list]. destruct (ppnm_meta_top allowed m) as [Hd Ho].
+  destruct (p_ok (ppnm_meta allowed None m)); unfold p_depth, p_ops_of in *; cbn [fst snd].
+  - split; [apply Nat.max_lub; assumption | rewrite all_ok_app, Ho, IHo; reflexivity].
+  - split; assumption.
+Qed.
+
+(** utils.rs:879-1042 parse_punctuated_nested_meta is total and panic-free on every list of nested metas, with any
+    wrapper and any list of allowed parameters: both `get_ident().unwrap()` (:918, :1015) follow a successful
+    `is_ident(param)`, `RefType::from_attr_name` (:108) only sees owned / ref / ref_mut, and the function calls
+    itself at most once more (nesting depth of invocations <= 1 below the first) *)
+Lemma meta_parser_safe allowed w ms :
+  all_ok (p_ops_of (ppnm_list allowed w ms)) = true /\ p_depth (ppnm_list allowed w ms) <= 1.
+Proof.
+  destruct w as [w|].
+  - destruct (ppnm_list_wrapped allowed w ms) as [Hd Ho]. split; [exact Ho | rewrite Hd; apply Nat.le_0_l].
+  - destruct (ppnm_list_top allowed ms) as [Hd Ho]. split; assumption.
+Qed.
+
+Lemma get_meta_info_total allowed attrs :
+  all_ok (p_ops_of (get_meta_info allowed attrs)) = true /\ p_depth (get_meta_info allowed attrs) <= 2.
+Proof.
+  unfold get_meta_info. destruct attrs as [|a rest]; [split; [reflexivity | apply Nat.le_0_l]|].
+  destruct allowed as [|p allowed]; [split; [reflexivity | apply Nat.le_0_l]|].
+  destruct rest; [|split; [reflexivity | apply Nat.le_0_l]].
+  destruct a as [|parses metas|]; try (split; [reflexivity | apply Nat.le_0_l]).
+  destruct parses; [|split; [reflexivity | apply Nat.le_0_l]].
+  destruct (ppnm_list_top (p :: allowed) metas) as [Hd Ho]. unfold p_depth, p_ops_of in *. cbn [fst snd].
+  split; [exact Ho | lia].
+Qed.
+
+(* a satisfiable, non-trivial instance: #[try_into(owned, not(forward), ref(types(i32)))] with everything allowed *)
+Example ex_meta_parser :
+  ppnm_list ["owned"; "ref"; "forward"; "types"]%string None
+    [PMPath (Some "owned"%string);
+     PMList (Some "not"%string) true [PMPath (Some "forward"%string)] None;
+     PMList (Some "ref"%string) true [PMList (Some "types"%string) true [] (Some [true])] None]
+  = (true, [OUnwrap true; OUnwrap true; OUnwrap true; OUnwrap true; OUnwrap true], 1).
+Proof. vm_compute. reflexivity. Qed.
+
+(* ------------------------------------------------------------------------------------------ *)
+(** ** into.rs check_legacy_syntax *)
+
+Lemma check_legacy_syntax_safe nfields metas : all_ok (snd (check_legacy_syntax nfields metas)) = true.
+Proof.
+  unfold check_legacy_syntax. pose proof (len1_next_safe nfields) as Hf.
+  destruct metas as [ms|]; [|exact Hf].
+  destruct (legacy_fold (None, None, None, None) ms) as [[[[top owned] ref_] ref_mut]|]; [|exact Hf].
+  destruct (negb (existsb nonempty [top; owned; ref_; ref_mut])); [exact Hf|].
+  cbn [snd]. rewrite all_ok_app, Hf, into_legacy_top_level_safe. reflexivity.
+Qed.
+
+(* `#[into(types(i32, "&str"))]` is reported as legacy syntax; `#[into(owned(i32))]` is not *)
+Example ex_legacy_types :
+  check_legacy_syntax 1 (Some [LMList NTypes (Some [true; true]) IEmpty]) = (true, [OUnwrap true; OUnwrap true]).
+Proof. vm_compute. reflexivity. Qed.
+Example ex_legacy_owned_plain :
+  fst (check_legacy_syntax 1 (Some [LMList NOwned None ILastNotList])) = false.
+Proof. vm_compute. reflexivity. Qed.
+
+(* ------------------------------------------------------------------------------------------ *)
+(** ** recursion depth of the type walkers *)
+
+Fixpoint ty_size (t : ty) : nat :=
+  match t with
+  | TNode cs => S ((fix go (l : list ty) : nat := match l with [] => 0 | c :: r => ty_size c + go r end) cs)
+  end.
+
+Lemma children_depth_le sel t0 (cs : list ty) :
+  (forall c, In c cs -> call_depth sel c <= ty_depth c) ->
+  forall i,
+    (fix go (i : nat) (l : list ty) : nat :=
+       match l with
+       | [] => 0
+       | c :: r => Nat.max (if sel t0 i then call_depth sel c else 0) (go (S i) r)
+       end) i cs
+    <= (fix go (l : list ty) : nat := match l with [] => 0 | c :: r => Nat.max (ty_depth c) (go r) end) cs.
+Proof.
+  induction cs as [|c cs IH]; intros H i; [apply le_n|].
+  apply Nat.max_le_compat.
+  - destruct (sel t0 i); [apply H; left; reflexivity | apply Nat.le_0_l].
+  - apply IH. intros c' Hc'. apply H. right; exact Hc'.
+Qed.
+
+Lemma child_size_lt (cs : list ty) c :
+  In c cs -> ty_size c <= (fix go (l : list ty) : nat := match l with [] => 0 | c :: r => ty_size c + go r end) cs.
+Proof.
+  induction cs as [|x cs IH]; intros H; [destruct H|]. destruct H as [->|H]; [lia|]. specialize (IH H). lia.
+Qed.
+
+(** a walker that, on each node, recurses into any subset of the children never nests deeper than the type *)
+Lemma call_depth_le_ty_depth sel : forall t, call_depth sel t <= ty_depth t.
+Proof.
+  assert (H : forall n t, ty_size t <= n -> call_depth sel t <= ty_depth t).
+  { induction n as [|n IH]; intros [cs] Hs; cbn [ty_size] in Hs; [lia|].
+    cbn [call_depth ty_depth]. apply le_n_S. apply children_depth_le.
+    intros c Hc. apply IH. pose proof (child_size_lt cs c Hc). lia. }
+  intros t. apply (H (ty_size t)). apply le_n.
+Qed.
+
+Example ex_call_depth :
+  call_depth (fun _ _ => true) (TNode [TNode [TNode []]; TNode [TNode [TNode []]]]) = 4 /\
+  call_depth (fun _ i => Nat.eqb i 1) (TNode [TNode [TNode []]; TNode [TNode [TNode []]]]) = 2 /\
+  ty_depth (TNode [TNode [TNode []]; TNode [TNode [TNode []]]]) = 4.
+Proof. vm_compute. repeat split; reflexivity. Qed.
